@@ -34,6 +34,7 @@ pub enum Clause {
     ToPosit,
     NarSticky,
     Order,
+    MatDot,
     PanicAcc,
     // ---- C12
     Neg,
@@ -46,13 +47,14 @@ pub enum Clause {
 }
 
 impl Clause {
-    pub const ALL: [Clause; 14] = [
+    pub const ALL: [Clause; 15] = [
         Clause::BitImage,
         Clause::IsZero,
         Clause::IsNar,
         Clause::ToPosit,
         Clause::NarSticky,
         Clause::Order,
+        Clause::MatDot,
         Clause::PanicAcc,
         Clause::Neg,
         Clause::Clear,
@@ -70,6 +72,7 @@ impl Clause {
             Clause::ToPosit => "to_posit",
             Clause::NarSticky => "nar_sticky",
             Clause::Order => "order",
+            Clause::MatDot => "matrix_dot",
             Clause::PanicAcc => "panic_accumulate",
             Clause::Neg => "neg",
             Clause::Clear => "clear",
@@ -91,6 +94,7 @@ impl Clause {
             | Clause::ToPosit
             | Clause::NarSticky
             | Clause::Order
+            | Clause::MatDot
             | Clause::PanicAcc => Mode::C04,
             _ => Mode::C12,
         }
@@ -288,6 +292,24 @@ impl<'a, S: Sut> Runner<'a, S> {
                 } else {
                     Err("image wider than the quire".into())
                 }
+            }
+            Ev::MatDot { r, k, c, a, b } => {
+                let (r, k, c) = (*r, *k, *c);
+                if r == 0 || k == 0 || c == 0 || r > 4 || c > 4 || k > 8 || a.len() != r * k || b.len() != k * c {
+                    return Err("matdot: bad shape".into());
+                }
+                if a.iter().chain(b.iter()).any(|&p| p > qt.mask()) {
+                    return Err("matdot: bad operand".into());
+                }
+                for i in 0..r {
+                    for j in 0..c {
+                        let terms: Vec<Option<Wide>> = (0..k).map(|l| product_units(qt, a[i * k + l], b[l * c + j])).collect();
+                        if !self.range_ok(&Wide::ZERO, &terms) {
+                            return Err("matdot: an element's partial sums could leave the quire range".into());
+                        }
+                    }
+                }
+                Ok(())
             }
             Ev::Order(k, alt) => {
                 let k = *k;
@@ -839,6 +861,45 @@ impl<'a, S: Sut> Runner<'a, S> {
                 }
                 // the observed quire itself is untouched
                 self.check_model(step, Clause::BitImage)
+            }
+            Ev::MatDot { r, k, c, a, b } => {
+                self.st.hit(Pr::ev_matdot);
+                self.any_special = true;
+                let (r, k, c) = (*r, *k, *c);
+                if k >= 4 {
+                    self.st.hit(Pr::matdot_inner4);
+                }
+                let out = match catch(|| S::matdot(r, k, c, a, b)) {
+                    Ok(o) => o,
+                    Err(m) => return Err(self.fail(Clause::PanicAcc, step, "quire_dot returns".into(), format!("panic: {m}"))),
+                };
+                for i in 0..r {
+                    for j in 0..c {
+                        let mut sum = Wide::ZERO;
+                        let mut nar = false;
+                        for l in 0..k {
+                            match product_units(qt, a[i * k + l], b[l * c + j]) {
+                                Some(t) => sum = sum.add(&t),
+                                None => nar = true,
+                            }
+                        }
+                        let exp = if nar { qt.nar() } else { round_exact(qt, &sum).posit };
+                        self.st.hit(Pr::matdot_elems);
+                        if nar {
+                            self.st.hit(Pr::matdot_nar);
+                        }
+                        let got = out.get(i * c + j).copied().unwrap_or(u32::MAX);
+                        if got != exp {
+                            return Err(self.fail(
+                                Clause::MatDot,
+                                step,
+                                format!("quire_dot[{i},{j}] = {:x} (exact dot product = {} units of 2^-{})", exp, sum.hex(), qt.f()),
+                                format!("quire_dot[{i},{j}] = {:x}", got),
+                            ));
+                        }
+                    }
+                }
+                Ok(())
             }
             Ev::Order(k, alt) => {
                 self.st.hit(Pr::ev_order);
